@@ -280,19 +280,31 @@ pub fn edge_family() -> Vec<(String, ModelSpec)> {
     models
 }
 
-/// F12: ONE long vector per model - a dictionary word of 254..1024 characters (thorough: up to 65536), a unigram
+/// F12: ONE long vector per model - a dictionary word of 254..1024 characters (thorough: up to the documented limit 32767), a unigram
 /// under window 255 (510 weights), a tag category with 255..600 candidates (bias and tag weights that long). Each
 /// comes with texts that contain the long pattern (the short common texts never do).
 pub fn long_vector_family(tier: Tier) -> Vec<(String, ModelSpec, Vec<String>)> {
     use crate::mirror::{TagModel, TagNgramData, TagWeight};
     let mut out = vec![];
-    let lens: Vec<usize> = tier.pick(vec![254usize, 255, 256, 510, 511, 512, 1024], vec![254, 255, 256, 510, 511, 512, 1024, 4096, 65535, 65536]);
+    let lens: Vec<usize> = tier.pick(vec![254usize, 255, 256, 510, 511, 512, 1024], vec![254, 255, 256, 510, 511, 512, 1024, 4096, 32766, 32767]);
+    // (32767 characters is the scorers' documented limit for a dictionary word: Predictor::new rejects longer ones)
     for (i, &l) in lens.iter().enumerate() {
         let word = "a".repeat(l);
         let b = mk(&[Entry::Dict(word.clone()), Entry::Char("a".into())], 2, 1, 0, (i % 2) as u8, i % 3 == 0);
         let mut other = "a".repeat(l - 1);
         other.push('あ');
         out.push((format!("long dictionary word of {l} characters"), b.spec, vec![word.clone(), format!("b{word}b"), format!("{word}a"), other]));
+    }
+    // a LONG word that is a proper suffix of a longer one (and of a third): the suffix merge must add its weights
+    // whatever the byte length of the suffix (21..129 characters of 1 and of 3 bytes: 21..387 bytes)
+    for &l in &[21usize, 22, 42, 43, 63, 64, 65, 85, 86, 127, 128, 129] {
+        for (ci, unit) in ["ab", "火星"].iter().enumerate() {
+            let sfx: String = unit.chars().cycle().take(l).collect();
+            let p1 = format!("b{sfx}");
+            let p2 = format!("あb{sfx}");
+            let b = mk(&[Entry::Dict(p1.clone()), Entry::Dict(sfx.clone()), Entry::Dict(p2.clone()), Entry::Char("a".into())], 2, 1, 0, ((l + ci) % 2) as u8, l % 3 == 0);
+            out.push((format!("suffix word of {l} characters ({} bytes) under two longer words", sfx.len()), b.spec, vec![sfx.clone(), p1.clone(), p2.clone(), format!("x{p1}y"), format!("a{sfx}a"), format!("{p2}{p1}")]));
+        }
     }
     for (which, w) in [(0u8, 255u8), (1, 255), (0, 254), (0, 128)] {
         let b = if which == 0 { mk(&[Entry::Char("a".into()), Entry::Char("ab".into())], w, 1, 1, 0, false) } else { mk(&[Entry::Type(vec![2]), Entry::Type(vec![2, 3])], 1, w, 1, 1, false) };
@@ -360,6 +372,12 @@ pub fn many_entries_family(tier: Tier) -> Vec<(String, ModelSpec)> {
     out
 }
 
+/// Texts longer than twice the largest window of the sparse family (the far entries of a long weight vector reach a
+/// boundary only there), containing its unigram, its type run and its dictionary words.
+pub fn long_window_texts() -> Vec<String> {
+    vec!["a".repeat(30), "ab".repeat(15), format!("{}a{}", "b".repeat(14), "b".repeat(14)), format!("あ{}あ", "ab".repeat(13)), format!("{}あ{}", "a".repeat(13), "ab".repeat(9))]
+}
+
 /// Sparse large-window models: the weight vectors are long (window >= 8) but only their first
 /// few entries are non-zero, so any "effective length" shortcut (trimmed zeros) meets the
 /// variable-length arithmetic for patterns hanging over the sentence start.
@@ -382,6 +400,30 @@ pub fn sparse_large_window_family() -> Vec<(String, ModelSpec)> {
                     }
                 }
                 out.push((format!("sparse-large-window w={w} nonzero={nz} kind={kind}"), m));
+            }
+        }
+        // mirrored: non-zeros ONLY in the last 1 / 2 / 3 entries (every leading full block of 8 is zero), in a
+        // character unigram, a type unigram and a dictionary word of 2W-1 characters; with and without tag models
+        // (the tag-aware scorers keep their own copies of the boundary weights)
+        for tail in [1usize, 2, 3] {
+            for kind in 0..3u8 {
+                for tags in [false, true] {
+                    let mut m = ModelSpec { bias: -1, char_window_size: if kind == 1 { 2 } else { w }, type_window_size: if kind == 1 { w } else { 2 }, ..Default::default() };
+                    let n = 2 * w as usize;
+                    let weights: Vec<i32> = (0..n).map(|k| if k + tail >= n { 300 + k as i32 * 11 } else { 0 }).collect();
+                    match kind {
+                        0 => m.char_ngram_model.push(crate::mirror::NgramData { ngram: "a".into(), weights }),
+                        1 => m.type_ngram_model.push(crate::mirror::NgramData { ngram: vec![2], weights }),
+                        _ => {
+                            m.char_ngram_model.push(crate::mirror::NgramData { ngram: "b".into(), weights: vec![0; n] });
+                            m.dict_model.push(crate::mirror::WordWeightRecord { word: "ab".repeat(w as usize).chars().take(n - 1).collect(), weights, comment: String::new() });
+                        }
+                    }
+                    if tags {
+                        models::attach_tags(&mut m);
+                    }
+                    out.push((format!("sparse-large-window w={w} tail-nonzero={tail} kind={kind} tags={}", tags as u8), m));
+                }
             }
         }
     }
@@ -656,12 +698,27 @@ pub fn run(tier: Tier) -> ! {
             check_model(&chk, &Built { spec: spec.clone(), desc: desc.clone() }, &t, true);
         });
     }
+    // F14: weights of 32-bit magnitude (scheme 4) on the F6 entry sets, short texts
+    {
+        let mut f14 = vec![];
+        let es = [Entry::Char("a".into()), Entry::Dict("ab".into()), Entry::Char("ba".into()), Entry::Type(vec![2]), Entry::Type(vec![2, 2]), Entry::Dict("a".into()), Entry::Type(vec![3, 2])];
+        for (wc, wt) in [(1u8, 1u8), (2, 2), (3, 3), (2, 5), (5, 2), (9, 3)] {
+            for k in [2usize, 4, 7] {
+                for tags in [false, true] {
+                    f14.push(mk(&es[..k], wc, wt, [0, 1 << 26, -(1 << 27)][k % 3], 4, tags));
+                }
+            }
+        }
+        fam_counts.insert("F14-32-bit-weights".into(), json!(f14.len()));
+        f14.par_iter().for_each(|b| check_model(&chk, b, &texts, true));
+    }
     let f13: Vec<Built> = many_entries_family(tier).into_iter().map(|(desc, spec)| Built { spec, desc }).collect();
     fam_counts.insert("F13-many-entries".into(), json!(f13.len()));
     f13.par_iter().for_each(|b| check_model(&chk, b, &texts, true));
     let f7: Vec<Built> = sparse_large_window_family().into_iter().map(|(desc, spec)| Built { spec, desc }).collect();
     fam_counts.insert("F7-sparse-large-window".into(), json!(f7.len()));
-    f7.par_iter().for_each(|b| check_model(&chk, b, &texts, true));
+    let t7: Vec<Vec<char>> = texts.iter().cloned().chain(long_window_texts().iter().map(|t| t.chars().collect())).collect();
+    f7.par_iter().for_each(|b| check_model(&chk, b, &t7, true));
     {
         let f8 = ternary_family(tier);
         let t8 = gen::strings(&['a', 'あ'], 1, tier.pick(4, 5));
